@@ -494,6 +494,147 @@ func (e *emitter) c09Fields(s *source, rel, goName, typ, leanName string) {
 		typ, goName, rel, leanName, strings.Join(items, ", "))
 }
 
+// c09StructFields lists the field names of a struct type declared in the file.
+func c09StructFields(s *source, rel, typ string) []string {
+	var out []string
+	f := s.file(rel)
+	if f == nil {
+		return []string{"MISSING"}
+	}
+	ast.Inspect(f, func(n ast.Node) bool {
+		ts, ok := n.(*ast.TypeSpec)
+		if !ok || ts.Name.Name != typ {
+			return true
+		}
+		if st, ok := ts.Type.(*ast.StructType); ok {
+			for _, fl := range st.Fields.List {
+				for _, nm := range fl.Names {
+					out = append(out, nm.Name+" "+s.src(fl.Type))
+				}
+			}
+		}
+		return false
+	})
+	return out
+}
+
+// c09Access lists, in source order, every access a method makes to a field of its receiver:
+// (field, operation, number of return statements that start before the access, detail) with operation
+// "write" (`recv.f = v`), "write-index" (`recv.f[k] = v`; detail = the stored value), "read-index" (`recv.f[k]`),
+// "range", "call" (`recv.m(...)`: a method of the receiver) or "read".  Function literals are entered.
+func (e *emitter) c09Access(s *source, rel, goName, leanName string) {
+	fd := s.findFunc(rel, goName)
+	if fd == nil || fd.Recv == nil || len(fd.Recv.List) == 0 || len(fd.Recv.List[0].Names) == 0 {
+		e.errors = append(e.errors, "method "+goName+" not found in "+rel)
+		e.printf("/-- MISSING -/\ndef %s : List (String × String × Nat × String) := []\n\n", leanName)
+		return
+	}
+	recv := fd.Recv.List[0].Names[0].Name
+	isRecvSel := func(x ast.Expr) (*ast.SelectorExpr, bool) {
+		sel, ok := x.(*ast.SelectorExpr)
+		if !ok {
+			return nil, false
+		}
+		id, ok := sel.X.(*ast.Ident)
+		return sel, ok && id.Name == recv
+	}
+	var rets []token.Pos
+	ast.Inspect(fd.Body, func(n ast.Node) bool {
+		if r, ok := n.(*ast.ReturnStmt); ok {
+			rets = append(rets, r.Pos())
+		}
+		return true
+	})
+	before := func(p token.Pos) int {
+		k := 0
+		for _, r := range rets {
+			if r < p {
+				k++
+			}
+		}
+		return k
+	}
+	claimed := map[ast.Node]bool{}
+	var items []string
+	add := func(field, op string, pos token.Pos, detail string) {
+		items = append(items, fmt.Sprintf("(%s, %s, %d, %s)", leanString(field), leanString(op), before(pos), leanString(detail)))
+	}
+	ast.Inspect(fd.Body, func(n ast.Node) bool {
+		switch x := n.(type) {
+		case *ast.AssignStmt:
+			for i, l := range x.Lhs {
+				rhs := ""
+				if i < len(x.Rhs) {
+					rhs = s.src(x.Rhs[i])
+				} else if len(x.Rhs) == 1 {
+					rhs = s.src(x.Rhs[0])
+				}
+				if ix, ok := l.(*ast.IndexExpr); ok {
+					if sel, ok := isRecvSel(ix.X); ok {
+						claimed[ix], claimed[sel] = true, true
+						add(sel.Sel.Name, "write-index", ix.Pos(), rhs)
+					}
+				} else if sel, ok := isRecvSel(l); ok {
+					claimed[sel] = true
+					add(sel.Sel.Name, "write", sel.Pos(), rhs)
+				}
+			}
+		case *ast.RangeStmt:
+			if sel, ok := isRecvSel(x.X); ok {
+				claimed[sel] = true
+				add(sel.Sel.Name, "range", sel.Pos(), s.src(x.X))
+			}
+		case *ast.CallExpr:
+			if sel, ok := isRecvSel(x.Fun); ok {
+				claimed[sel] = true
+				add(sel.Sel.Name, "call", sel.Pos(), s.src(x))
+			}
+		case *ast.IndexExpr:
+			if sel, ok := isRecvSel(x.X); ok && !claimed[x] {
+				claimed[sel] = true
+				add(sel.Sel.Name, "read-index", x.Pos(), s.src(x))
+			}
+		case *ast.SelectorExpr:
+			if sel, ok := isRecvSel(x); ok && !claimed[sel] {
+				add(sel.Sel.Name, "read", sel.Pos(), s.src(x))
+			}
+		}
+		return true
+	})
+	e.printf("/-- accesses of `%s` (%s) to the fields of its receiver, in source order -/\ndef %s : List (String × String × Nat × String) :=\n  [%s]\n\n",
+		goName, rel, leanName, strings.Join(items, ",\n   "))
+}
+
+// c09Assigns emits every assignment of a function (function literals entered) as a typed list (left side, right side).
+func (e *emitter) c09Assigns(s *source, rel, goName, leanName string) {
+	fd := s.findFunc(rel, goName)
+	if fd == nil {
+		e.errors = append(e.errors, "function "+goName+" not found in "+rel)
+		e.printf("/-- MISSING -/\ndef %s : List (String × String) := []\n\n", leanName)
+		return
+	}
+	var items []string
+	ast.Inspect(fd.Body, func(n ast.Node) bool {
+		if a, ok := n.(*ast.AssignStmt); ok {
+			for i, l := range a.Lhs {
+				rhs := ""
+				if i < len(a.Rhs) {
+					rhs = s.src(a.Rhs[i])
+				} else if len(a.Rhs) == 1 {
+					rhs = s.src(a.Rhs[0])
+				}
+				if fl, ok := a.Rhs[min(i, len(a.Rhs)-1)].(*ast.FuncLit); ok {
+					rhs = "func" + s.src(fl.Type)[4:] + "{...}"
+				}
+				items = append(items, fmt.Sprintf("(%s, %s)", leanString(s.src(l)), leanString(rhs)))
+			}
+		}
+		return true
+	})
+	e.printf("/-- assignments of `%s` (%s), in source order -/\ndef %s : List (String × String) :=\n  [%s]\n\n",
+		goName, rel, leanName, strings.Join(items, ", "))
+}
+
 func init() {
 	register("C09", func(s *source, e *emitter) {
 		const tree = "core/search/tree.go"
@@ -615,6 +756,43 @@ func init() {
 		e.c09DetailDef(s, srv, "corsRouter.ServeHTTP", "corsRouterServeStmts")
 		e.c09Cond(s, corsf, "Middleware", "condCorsPreflight", c09If(1), []c09Param{{"r.Method", "method", "str"}})
 		e.c09Cond(s, corsf, "NotAllowedHandler", "condCorsNAOptions", c09If(1), []c09Param{{"r.Method", "method", "str"}})
+		// round 5c: every structure ServeHTTP reads and Handle writes (seeded change C09-9: a second dispatch structure)
+		e.c09Access(s, pat, "patRouter.Handle", "handleAccess")
+		e.c09Access(s, pat, "patRouter.ServeHTTP", "serveAccess")
+		e.c09Access(s, pat, "patRouter.methodsAllowed", "methodsAllowedAccess")
+		e.c09Access(s, pat, "patRouter.handleNotFound", "handleNotFoundAccess")
+		e.c09Access(s, pat, "patRouter.SetNotFoundHandler", "setNotFoundAccess")
+		e.c09Access(s, pat, "patRouter.SetNotAllowedHandler", "setNotAllowedAccess")
+		e.stringList("patRouterFields", "fields of the struct `patRouter`", c09StructFields(s, pat, "patRouter"))
+		e.c09Access(s, tree, "Tree.Add", "treeAddAccess")
+		e.c09Access(s, tree, "Tree.Search", "treeSearchAccess")
+		// round 5c: HeaderOnceResponseWriter (the forced 404 of engine.notFoundHandler)
+		const how = "rest/internal/response/headeronceresponsewriter.go"
+		e.c09DetailDef(s, how, "HeaderOnceResponseWriter.WriteHeader", "headerOnceWriteHeaderStmts")
+		e.c09Cond(s, how, "HeaderOnceResponseWriter.WriteHeader", "condHeaderOnceWrote", c09If(0), []c09Param{{"w.wroteHeader", "wrote", "flag"}})
+		// round 5c: what every option writes (typed assignment lists instead of statement text)
+		for _, o := range [][2]string{{"WithJwt", "withJwtAssigns"}, {"WithJwtTransition", "withJwtTransitionAssigns"},
+			{"WithTimeout", "withTimeoutAssigns"}, {"WithMaxBytes", "withMaxBytesAssigns"}, {"WithPriority", "withPriorityAssigns"},
+			{"WithSSE", "withSSEAssigns"}, {"WithPrefix", "withPrefixAssigns"}, {"WithRouter", "withRouterAssigns"},
+			{"WithChain", "withChainAssigns"}, {"WithNotFoundHandler", "withNotFoundAssigns"}, {"WithFileServer", "withFileServerAssigns"},
+			{"WithCors", "withCorsAssigns"}, {"Server.AddRoutes", "serverAddRoutesAssigns"}} {
+			e.c09Assigns(s, srv, o[0], o[1])
+		}
+		e.c09Assigns(s, eng, "engine.addRoutes", "engineAddRoutesAssigns")
+		e.c09Assigns(s, eng, "engine.use", "engineUseAssigns")
+		// round 5c: the other router wrappers
+		const fsf = "rest/internal/fileserver/filehandler.go"
+		e.c09DetailDef(s, srv, "WithCorsHeaders", "withCorsHeadersStmts")
+		e.c09DetailDef(s, srv, "WithCustomCors", "withCustomCorsStmts")
+		e.c09DetailDef(s, srv, "WithFileServer", "withFileServerStmts")
+		e.c09DetailDef(s, srv, "newFileServingRouter", "newFileServingRouterStmts")
+		e.c09DetailDef(s, srv, "fileServingRouter.ServeHTTP", "fileServingRouterServeStmts")
+		e.c09DetailDef(s, fsf, "Middleware", "fileMiddlewareStmts")
+		e.c09DetailDef(s, fsf, "createServeChecker", "serveCheckerStmts")
+		e.c09Cond(s, fsf, "createServeChecker", "condServeChecker", c09RetField(1, ""), []c09Param{{"r.Method", "method", "str"},
+			{"strings.HasPrefix(r.URL.Path, pathWithTrailSlash)", "below", "flag"},
+			{"fileChecker(r.URL.Path[len(pathWithTrailSlash):])", "found", "flag"}})
+		e.c09Body(s, fsf, "ensureTrailingSlash", "ensureTrailingSlashBody", []c09Param{{"strings.HasSuffix(path, \"/\")", "slash", "flag"}})
 		// round 5: what the constructed values are fed from
 		e.c09Fields(s, srv, "WithPrefix", "Route", "withPrefixRouteFields")
 		e.c09Calls(s, srv, "WithPrefix", "withPrefixCalls")
